@@ -68,6 +68,7 @@ func Filter2DMapCollection[K comparable, V any](collection []map[K]map[K]V, fn f
 		for _, v := range item {
 			if fn(v) {
 				filtered = append(filtered, item)
+				break
 			}
 		}
 	}
